@@ -475,6 +475,8 @@ OPNMIDI_EXPORT void opn2_setLogarithmicVolumes(struct OPN2_MIDIPlayer *device, i
     {
         if(play->m_setup.LogarithmicVolumes != 0)
             synth.setVolumeScaleModel(OPNMIDI_VolumeModel_NativeOPN2);
+        else if(play->m_setup.VolumeModel == OPNMIDI_VolumeModel_AUTO)//Back to the bank default volume model
+            synth.m_volumeScale = (Synth::VolumesScale)synth.m_insBankSetup.volumeModel;
         else
             synth.setVolumeScaleModel(static_cast<OPNMIDI_VolumeModels>(play->m_setup.VolumeModel));
     }
@@ -490,6 +492,7 @@ OPNMIDI_EXPORT void opn2_setVolumeRangeModel(struct OPN2_MIDIPlayer *device, int
     assert(play);
     Synth &synth = *play->m_synth;
     play->m_setup.VolumeModel = volumeModel;
+    play->m_setup.LogarithmicVolumes = 0; // An explicitly chosen model replaces the deprecated switch
     if(!synth.setupLocked())
     {
         if(play->m_setup.VolumeModel == OPNMIDI_VolumeModel_AUTO)//Use bank default volume model
